@@ -97,3 +97,37 @@ func verifC05Layout(sepLen int) {
 
 func VerifHarness_C05_Layout_1() { verifC05Layout(1) }
 func VerifHarness_C05_Layout_2() { verifC05Layout(2) }
+
+// O7: string literals: a backquoted literal denotes its content verbatim
+// (every byte, CR and LF included); a double-quoted literal without escapes
+// denotes its content.
+func verifC05StringLiteral(n int) {
+	content := vsymString("content", 1+vsymChoice("len", n))
+	raw := vsymBool("raw")
+	for i := 0; i < len(content); i++ {
+		c := content[i]
+		if raw {
+			vsymAssume(c != '`')
+			vsymAssume(c != 0) // text/scanner rejects NUL
+		} else {
+			// printable ASCII without quote and backslash
+			vsymAssume(c >= 0x20)
+			vsymAssume(c <= 0x7e)
+			vsymAssume(c != '"')
+			vsymAssume(c != '\\')
+		}
+		vsymAssume(c < 0x80) // multi-byte runes: outside this obligation
+	}
+	text := `"` + content + `"`
+	if raw {
+		text = "`" + content + "`"
+	}
+	toks, err := Tokenize("|= "+text, TokenizeOptions{})
+	vsymAssert(err == nil, "a string literal lexes")
+	vsymAssert(len(toks) == 2 && toks[1].Type == String, "a string literal is one String token")
+	vsymAssert(toks[1].Text == content, "a string literal denotes exactly its content (backquoted: verbatim, CR and LF included)")
+	vsymReach("C05_string_literal")
+}
+
+func VerifHarness_C05_StringLiteral_1() { verifC05StringLiteral(1) }
+func VerifHarness_C05_StringLiteral_2() { verifC05StringLiteral(2) }
